@@ -53,6 +53,10 @@ func genPayload(t *rapid.T, max int, lbl string) []byte {
 		rapid.IntRange(0, 40),
 		rapid.IntRange(0, 600),
 		rapid.SampledFrom([]int{0, 1, 125, 126, 127, 128, 65535, 65536, 65537, max - 1, max}),
+		// around the read buffer's initial capacity (4096) and its first growth steps, header bytes included
+		rapid.IntRange(4070, 4110),
+		rapid.SampledFrom([]int{4082, 4086, 4092, 4093, 4094, 4095, 4096, 4097, 8178, 8190, 8192, 16384}),
+		rapid.IntRange(0, max),
 	).Draw(t, lbl+"len")
 	if n > max {
 		n = max
